@@ -80,13 +80,13 @@ SEARCHES = {
                   "random create/delete/publish histories over 2 topic names x 3 subscription names, incl. racing creates and held topic handles"),
     "order":     (["order", 40], ["order", 400], "2-4 concurrent publishers x 3 messages on a 2-thread runtime, 2 subscriptions"),
     "names":     (["names", 3], ["names", 5], "all strings = stem + suffix over {p,t,/,s,e-acute,-} up to the given suffix length, 24 stems"),
-    "rpc":       (["rpc"], ["rpc"], "10 scripted gRPC scenarios over a unix socket: pull limits and waiting, batch parsing, in-stream modack, streaming limits and control messages, namespace status codes, malformed fields, list walks and content identity, two parked pulls, HTTP push payload content, a 300-topic list walk"),
+    "rpc":       (["rpc"], ["rpc"], "11 scripted gRPC scenarios over a unix socket: pull limits and waiting, batch parsing, in-stream modack, streaming limits and control messages, namespace status codes, malformed fields, list walks and content identity, two parked pulls, HTTP push payload content, a 300-topic list walk, several consumers of one subscription (stream + unary pull + second subscription + delete)"),
     "tokens":    (["tokens", 22], ["tokens", 27], "page-token codec (src/api/page_token.rs mounted by path): encode/decode round trip for every offset below 2^22 (thorough: 2^27), every byte value at every byte position over 3 backgrounds, 200000 random 64-bit offsets; 200000 hostile strings never panic"),
     "paging":    (["paging", 7], ["paging", 12], "page walks over 0,1,2,n resources in 2 projects, 11 page sizes x 6 start offsets, 3 list operations"),
 }
 BY_PROP = {
-    "C01": ["history", "lifecycle"], "C02": ["history", "rpc"], "C03": ["history", "rpc"], "C04": ["history", "rpc"], "C05": ["history", "rpc"],
-    "C08": ["order", "history"], "C09": ["lifecycle", "rpc"], "C10": ["lifecycle", "rpc"], "C11": ["lifecycle", "rpc"],
+    "C01": ["history", "lifecycle", "rpc"], "C02": ["history", "rpc"], "C03": ["history", "rpc"], "C04": ["history", "rpc"], "C05": ["history", "rpc"],
+    "C08": ["order", "history", "rpc"], "C09": ["lifecycle", "rpc"], "C10": ["lifecycle", "rpc"], "C11": ["lifecycle", "rpc"],
     "C13": ["paging", "tokens", "lifecycle", "rpc"], "C15": ["history", "rpc"], "C17": ["names", "paging", "tokens", "rpc"], "C18": ["names"],
 }
 
